@@ -376,6 +376,19 @@ Definition top_ctx (o : opts) (tp : payload) : ctx :=
   {| cmk := match o_mask o with Some m => CMask m | None => CNone end;
      pnv := nverts_of tp; pnc := ncells_of tp; with_children := o_children o; omit_meta := o_omit_meta o; over := o_over o |}.
 
+(* objects and groups are copied under a group (or the root), data under an object *)
+Definition parent_ok (ks kp : kind) : bool :=
+  match ks, kp with
+  | KData, KObject => true
+  | KData, _ => false
+  | _, KData => false
+  | _, _ => true
+  end.
+
+(* does clear_cache reach an entity that went through copy_to_parent(..., clear_cache=True)? *)
+Definition clears (o : opts) (t : tree) : bool :=
+  o_clear o && (o_children o || negb (match knd (pl (root_node t)) with KGroup => true | _ => false end)).
+
 (* entity.copy(parent=p, ...) : source (sws, u), target parent (tws, p) *)
 Definition copy (w : world) (sws : bool) (u : uid) (tws : bool) (p : uid) (o : opts)
   : res (world * uid * list (uid * uid)) :=
@@ -383,19 +396,14 @@ Definition copy (w : world) (sws : bool) (u : uid) (tws : bool) (p : uid) (o : o
   | Some t, Some tp =>
       if Bool.eqb sws tws && memN p (uids t) then Err ERecursion else
       if nocopy (pl (root_node t)) then Err ENotCopied else
-      match knd (pl (root_node t)), knd (pl (root_node tp)) with
-      | KData, (KGroup | KData) => Err EBadParent
-      | (KGroup | KObject), KData => Err EBadParent
-      | _, _ =>
-        let st0 := {| used := uids (ws w tws); usedpg := pguids (ws w tws); nxt := wnext w |} in
-        match copy_tree t (top_ctx o (pl (root_node tp))) st0 with
-        | Err e => Err e
-        | Ok (t', st') =>
-            let w1 := set_ws w tws (insert_child p t' (ws w tws)) (nxt st') in
-            let w2 := if o_clear o && (o_children o || negb (match knd (pl (root_node t)) with KGroup => true | _ => false end))
-                      then set_ws w1 sws (replace_tree u (clear_src t) (ws w1 sws)) (wnext w1) else w1 in
-            Ok (w2, root_uid t', combine (copied_uids (o_children o) t) (uids t'))
-        end
+      if negb (parent_ok (knd (pl (root_node t))) (knd (pl (root_node tp)))) then Err EBadParent else
+      let st0 := {| used := uids (ws w tws); usedpg := pguids (ws w tws); nxt := wnext w |} in
+      match copy_tree t (top_ctx o (pl (root_node tp))) st0 with
+      | Err e => Err e
+      | Ok (t', st') =>
+          let w1 := set_ws w tws (insert_child p t' (ws w tws)) (nxt st') in
+          let w2 := if clears o t then set_ws w1 sws (replace_tree u (clear_src t) (ws w1 sws)) (wnext w1) else w1 in
+          Ok (w2, root_uid t', combine (copied_uids (o_children o) t) (uids t'))
       end
   | _, _ => Err ENoEntity
   end.
